@@ -176,6 +176,8 @@ def gen_scenario(rng, mode):
         sc["groups"][0]["procs"] = rng.choice([None, 1, 2, 3])
     if mode in ODD_STATE_MODES and rng.random() < .6:
         sc["oddStates"] = True
+    if mode in ("plain", "busy") and rng.random() < .3:
+        sc["sharedHosts"] = True          # non-exclusive nodes: two batches of the submission on one host
     if mode == "resubmit":
         gen_resubmit_plan(rng, sc)
     return sc
@@ -453,6 +455,14 @@ class Run:
                     return ["nodelost", rng.choice(c)]
         if mode == "faults" and not self.fault_done:
             subs = [p for p in vc.live() if p.kind in ("submit", "trysubmit") and vc.enabled(p.pid)]
+            nested = [p for p in subs if p.holding and p.at[0] == "ACQ"]
+            if nested and rng.random() < .25:
+                # about to enter a section under two locks (moving a node's results into the consolidated file):
+                # the process dies / the filesystem fails at one of the first mutations inside it
+                p = rng.choice(nested)
+                self.fault_done = True
+                self.fault_kind = rng.choice(["killin", "failwrite"])
+                return [self.fault_kind, p.pid, rng.randrange(0, 3)]
             if subs and rng.random() < .12:
                 p = rng.choice(subs)
                 self.fault_done = True
@@ -608,6 +618,11 @@ class Run:
                 self.bad(P1, "job.started_twice", f"job {k} was started {c} times")
                 if P1 != "C01":
                     self.bad("C01", "job.started_twice", f"job {k} was started {c} times")
+        if not faulty:
+            # "every job was either placed in exactly one batch or canceled without running" (C01)
+            both = sorted({jid(e[4][0]) for e in tr if e[1] == "row" and e[4][2] == "canceled"} & set(placed))
+            if both:
+                self.bad("C01", "job.canceled_and_placed", f"jobs {both} were recorded as canceled and also handed to the HPC in a batch")
         rows = vc.read_rows()
         # ---- rows: never lost (C11/C08 flavour), canceled rows (C04)
         written = [e for e in tr if e[1] == "row"]
@@ -1622,6 +1637,14 @@ class SystemSuite(Suite):
             t.append("rounds>2")
         if o["errors"]:
             t.append("proc.error")
+        if o["events"].get("oddstate"):
+            t.append("squeue.odd_state_word")
+        if o["events"].get("prepare"):
+            t.append(f"resubmit.epochs={1 + o['events']['prepare']}")
+        if case["sc"].get("sharedHosts"):
+            t.append("hosts.shared")
+        if o.get("style") == "slowext":
+            t.append("style.slowext")
         return t
 
     def shrink(self, case):
